@@ -22,7 +22,11 @@ inline Poly pdivs(const Poly &a, const Real &c) {
 }
 inline std::vector<std::pair<size_t, size_t>> factor_windows(size_t n, bool used) {
   if (!used) return {{0, n}};
+#ifdef LARGE
+  return windows_sample(n, 5, 11);
+#else
   return windows(n);
+#endif
 }
 template <class E, size_t o>
 void op_case(size_t n) {
@@ -51,14 +55,15 @@ void op_case(size_t n) {
   }
 }
 template <class EA, class EB, size_t oa, size_t ob>
-void link_case(size_t n, std::pair<size_t, size_t> wa) {
+void link_case(size_t n, std::pair<size_t, size_t> wa, std::vector<std::pair<size_t, size_t>> wbs = {}) {
   auto &En = Engine::get();
+  if (wbs.empty()) wbs = windows(n);
   auto g = gridpoints(n);
   Grid<Real> grid(g);
   Real c = Real::var("c");
   if (EA::divides_by_c || EB::divides_by_c) En.assume(sym::ne(c, Real(0)));
   auto a = mkspline<oa>(grid, wa.first, wa.second, "a");
-  for (auto wb : windows(n)) {
+  for (auto wb : wbs) {
     auto b = mkspline<ob>(grid, wb.first, wb.second, "b");
     auto v = mkspline<FO>(grid, 0, n, "v");
     Real bil = BilinearForm{EA::make(c, v), EB::make(c, v)}(a, b);
@@ -76,7 +81,16 @@ void add_op_o(std::vector<Case> &cases) {
   for (size_t n = 2; n <= MAXN; n++) cases.push_back({std::string("lin/") + E::name + "/o" + std::to_string(o) + "/n" + std::to_string(n), [=] { op_case<E, o>(n); }});
   if constexpr (o > 0) add_op_o<E, o - 1>(cases);
 }
-#ifdef FIXED_GRID
+#ifdef LARGE
+#ifndef NSAMPLE
+#define NSAMPLE 8
+#endif
+template <class E>
+void add_op(std::vector<Case> &cases) {
+  cases.push_back({std::string("lin-large/") + E::name + "/o1/n" + std::to_string(LARGE), [=] { op_case<E, 1>(LARGE); }});
+  cases.push_back({std::string("lin-large/") + E::name + "/o2/n" + std::to_string(LARGE), [=] { op_case<E, 2>(LARGE); }});
+}
+#elif defined(FIXED_GRID)
 template <class E, size_t... I>
 void add_op_hi(std::vector<Case> &cases, std::index_sequence<I...>) {
   ((cases.push_back({std::string("lin-high/") + E::name + "/o" + std::to_string(I + 5) + "/n3", [=] { op_case<E, I + 5>(3); }})), ...);
@@ -104,7 +118,13 @@ void add_link_o(std::vector<Case> &cases) {
 }
 template <class EA, class EB>
 void add_link(std::vector<Case> &cases) {
-#ifdef FIXED_GRID
+#ifdef LARGE
+  auto wbs = windows_sample(LARGE, NSAMPLE, 31);
+  for (auto wa : windows_sample(LARGE, NSAMPLE, 32)) {
+    cases.push_back({std::string("link-large/") + EA::name + "," + EB::name + "/o1x2/n" + std::to_string(LARGE) + "/wa" + W(wa), [=] { link_case<EA, EB, 1, 2>(LARGE, wa, wbs); }});
+    cases.push_back({std::string("link-large/") + EA::name + "," + EB::name + "/o2x0/n" + std::to_string(LARGE) + "/wa" + W(wa), [=] { link_case<EA, EB, 2, 0>(LARGE, wa, wbs); }});
+  }
+#elif defined(FIXED_GRID)
   for (size_t n = 2; n <= 3; n++)
     for (auto wa : windows(n, false)) {
       cases.push_back({std::string("link-high/") + EA::name + "," + EB::name + "/o6x5/n" + std::to_string(n) + "/wa" + W(wa), [=] { link_case<EA, EB, 6, 5>(n, wa); }});
